@@ -248,6 +248,28 @@ def analyse_vacuity(res, vac, r):
 
 
 # ------------------------------------------------------------------------------------------------
+def run_witness(prop, only=None):
+    """bounded witness search / replay of recorded histories against the REAL crate; never decides 'holds'"""
+    import subprocess
+    pref = only or prop.lower()
+    src = os.path.join(VERIF, 'witness', 'src', prop.lower() + '.rs')
+    if only is None and not os.path.exists(src):
+        return {'ran': False, 'reason': 'no witness program for this property', 'results': []}
+    t0 = time.time()
+    try:
+        p = subprocess.run([os.path.join(VERIF, 'tool', 'witness.sh'), pref], capture_output=True, text=True, timeout=1500)
+    except subprocess.TimeoutExpired:
+        return {'ran': False, 'reason': 'witness timed out', 'results': []}
+    res = []
+    for line in p.stdout.split('\n'):
+        m = re.match(r'(REPRODUCED|NOT-REPRODUCED) (\S+) ?(.*)', line)
+        if m:
+            res.append({'name': m.group(2), 'reproduced': m.group(1) == 'REPRODUCED', 'detail': m.group(3)})
+    if p.returncode != 0 and not res:
+        return {'ran': False, 'reason': 'witness build/run failed: ' + (p.stderr or '')[-600:], 'results': []}
+    return {'ran': True, 'wall_s': round(time.time() - t0, 1), 'results': res}
+
+
 def load_known():
     p = os.path.join(VERIF, 'known_findings.json')
     if os.path.exists(p):
@@ -296,6 +318,13 @@ def main():
     new_fail = [f for f in failures if f['obligation'] not in known_ids]
     seen_known = [f for f in failures if f['obligation'] in known_ids]
 
+    if replay and json.load(open(replay)).get('witness'):
+        want = json.load(open(replay))
+        w = run_witness(prop, only=want['witness'])
+        hit = [r for r in w['results'] if r['reproduced']]
+        for r in w['results']:
+            print('REPLAY %s %s %s' % ('REPRODUCED' if r['reproduced'] else 'NOT-REPRODUCED', r['name'], r['detail']))
+        return 1 if hit else 0
     if replay:
         want = json.load(open(replay))
         ids = set(x['obligation'] for x in want.get('failed_obligations', []))
@@ -305,6 +334,13 @@ def main():
             print('  FAILS %s :: %s' % (f['obligation'], f['message']))
         return 1 if still else 0
 
+    # concrete failing inputs: searched only when something failed / is undecided, or in the thorough tier (conformance)
+    witness = {'ran': False, 'reason': 'not needed (all obligations discharged, quick tier)', 'results': []}
+    known_w = {k.get('witness'): k for k in known if k.get('witness')}
+    if new_fail or undecided or seen_known or known_w or tier == 'thorough':
+        witness = run_witness(prop)
+    w_hits = [r for r in witness['results'] if r['reproduced']]
+    new_w = [r for r in w_hits if r['name'] not in known_w]
     n_obl = len(obligations)
     n_dis = sum(1 for o in obligations if o['status'] == 'discharged')
     trusted = []
@@ -335,10 +371,11 @@ def main():
             'failed_obligations': [f['obligation'] for f in failures],
             'known_findings_seen': [f['obligation'] for f in seen_known],
             'solver_time_s': round(sum(r['solver_ms'] for r in results) / 1000.0, 3),
+            'witness_search': dict(witness, note='bounded enumeration / recorded histories executed on the real crate through its public API; used only to attach a concrete failing input to a violation (and as conformance check of the contracts in the thorough tier); never counted as proof'),
         },
         'assumptions': trusted + cfg.get('assumptions', []),
         'wall_s': round(time.time() - t0, 2),
-        'violations': len(new_fail),
+        'violations': len(new_fail) + len(new_w),
     }
     if not os.environ.get('VERIF_NOEVIDENCE'):
         os.makedirs(os.path.join(VERIF, 'evidence'), exist_ok=True)
@@ -346,6 +383,21 @@ def main():
 
     for f in seen_known:
         print('KNOWN-FINDING: property=%s %s — %s' % (prop, f['obligation'], known_ids[f['obligation']].get('what', '')))
+    for r in w_hits:
+        if r['name'] in known_w and not any(f['obligation'] == known_w[r['name']]['obligation'] for f in seen_known):
+            print('KNOWN-FINDING: property=%s %s — %s' % (prop, known_w[r['name']].get('obligation', r['name']), known_w[r['name']].get('what', '')))
+    if new_w:
+        os.makedirs(os.path.join(VERIF, 'replay'), exist_ok=True)
+        rp = os.path.join(VERIF, 'replay', '%s-%d.json' % (prop, int(time.time())))
+        json.dump({'property': prop, 'kind': 'failing-input', 'witness': new_w[0]['name'], 'failing_input': new_w[0]['detail'],
+                   'note': 'concrete input executed on the real crate (witness/src); re-run: ./check %s --replay <this file>' % prop,
+                   'failed_obligations': new_fail, 'undecided': undecided}, open(rp, 'w'), indent=1)
+        for f in new_fail:
+            print('FAILED-OBLIGATION %s :: %s :: %s' % (f['obligation'], f['message'], f['text']))
+        for r in new_w:
+            print('FAILING-INPUT %s :: %s' % (r['name'], r['detail']))
+        print('VIOLATION property=%s replay=%s' % (prop, rp))
+        return 1
     if new_fail:
         os.makedirs(os.path.join(VERIF, 'replay'), exist_ok=True)
         rp = os.path.join(VERIF, 'replay', '%s-%d.json' % (prop, int(time.time())))
